@@ -153,6 +153,9 @@ var (
 	c14Seen   = map[string]string{}
 )
 
+// c14NoHistory: the fuzz target does not remember the millions of offers it tries.
+var c14NoHistory bool
+
 type c14Outcome struct {
 	Agreed   bool
 	Fallback bool
@@ -178,7 +181,9 @@ func runC14Server(t fataler, c c14ServerCase) (string, c14Outcome) {
 	key := fmt.Sprintf("%v|%v|%q", c.Mode, c.Lines, c.Offers)
 	c14SeenMu.Lock()
 	prev, seen := c14Seen[key]
-	c14Seen[key] = fmt.Sprint(respVals)
+	if !c14NoHistory {
+		c14Seen[key] = fmt.Sprint(respVals)
+	}
 	c14SeenMu.Unlock()
 	if seen && prev != fmt.Sprint(respVals) {
 		return fmt.Sprintf("the same offer %q in mode %s was answered %s earlier in this process and %v now: the negotiation depends on other connections' handshakes", c.Offers, modeName(c.Mode), prev, respVals), out
